@@ -802,7 +802,10 @@ def render_fn(idx, fs, table, ctx):
         for k, txt in fs.loopbodies.items():
             if k >= len(lp):
                 raise ExtractError("%s::%s has no loop #%d" % (fs.anchor, fs.name, k))
-            inserts.setdefault(lp[k] + 1, []).append("\nproof { " + txt + " }\n")
+            if txt.startswith("raw "):
+                inserts.setdefault(lp[k] + 1, []).append("\n" + txt[4:] + "\n")      # ghost declarations visible in the whole loop body
+            else:
+                inserts.setdefault(lp[k] + 1, []).append("\nproof { " + txt + " }\n")
             rules.fired.add("R9-anchored-hint")
     for (prefix, occ, txt) in fs.after:
         want = [t.s for t in lex(prefix)]
